@@ -18,6 +18,41 @@ pub fn gen_str(r: &mut Rng) -> String {
     }
 }
 
+/// Every short string literal of the source files the JSON-level properties are anchored in
+/// (read at build time, so the list follows /repo): a member name the code treats specially,
+/// today or after a change, must occur as a key of generated objects.
+pub fn source_keys() -> &'static [String] {
+    static K: std::sync::OnceLock<Vec<String>> = std::sync::OnceLock::new();
+    K.get_or_init(|| {
+        let srcs = [
+            include_str!("/repo/crates/ruma-signatures/src/functions.rs"),
+            include_str!("/repo/crates/ruma-common/src/canonical_json.rs"),
+            include_str!("/repo/crates/ruma-common/src/canonical_json/value.rs"),
+        ];
+        let mut out: Vec<String> = vec![];
+        for src in srcs {
+            for piece in src.split('"').skip(1).step_by(2) {
+                let ok = !piece.is_empty()
+                    && piece.len() <= 40
+                    && piece.chars().all(|c| c.is_ascii_alphanumeric() || matches!(c, '_' | '.' | ':' | '-'));
+                if ok && !out.iter().any(|k| k == piece) {
+                    out.push(piece.to_owned());
+                }
+            }
+        }
+        out.sort();
+        out
+    })
+}
+
+pub fn gen_key(r: &mut Rng) -> String {
+    if r.chance(1, 4) {
+        r.pick(source_keys()).clone()
+    } else {
+        gen_str(r)
+    }
+}
+
 pub fn gen_int(r: &mut Rng) -> Int {
     const B: &[i64] = &[0, 1, -1, 50, 100, 9007199254740991, -9007199254740991, 9007199254740990, 255, 256, 65535];
     if r.chance(2, 3) {
@@ -46,7 +81,7 @@ pub fn gen_obj(r: &mut Rng, depth: usize) -> CanonicalJsonObject {
     let n = r.below(4);
     let mut o = CanonicalJsonObject::new();
     for _ in 0..n {
-        o.insert(gen_str(r), gen_json(r, depth));
+        o.insert(gen_key(r), gen_json(r, depth));
     }
     o
 }
